@@ -69,6 +69,33 @@ CLAIMED['C17'] = dict(
     technique="Lean 4 theorem parametric in hash object, thresholds and read schedule + source-shape bridge + differential schedules",
     ref='§7 C17')
 
+CLAIMED['C01'] = dict(
+    text=("Lean model of load_manifests_for_path, get_file_entry_dict, verify_path, verify_entry_compatibility and "
+          "assert_directory_verifies (os.walk with pruning, per-directory verification, missing-directory pass) over string paths and a "
+          "finite tree. Theorems: the per-file rule as an iff incl. st_size/mtime stages (C01_file_ok_iff, C01_entry_ok_regular, "
+          "C01_no_entry_ok_iff_absent), the mtime rule (C01_mtime_skip_only, C01_mtime_monotone), the complete type-compatibility "
+          "table, IGNORE by whole components incl. the look-alike case (C01_ignore_component_wise over pathStartsWith_iff), and "
+          "soundness of each loop of the walk under the default handler (C01_files_sound, C01_leftovers_sound, "
+          "C01_missing_pass_sound: success implies every found non-hidden name and every listed entry verified; a stray has no "
+          "entry and cannot verify). PARTIAL: the composition of these per-directory theorems into one 'verifyDir = ok true iff "
+          "Accepts' statement over the whole recursive walk is not proved; the recursion itself is covered by the correspondence. "
+          "Tie: Bridge.Tree (decision points, defaults, call shapes of verify.py / recursiveloader.py / util.py re-extracted and "
+          "compared), differential runs on generated trees + mutations where the model's world is read back from the real disk."),
+    note=TB + "Hypotheses: st_size is the file length in generated trees; `..` in entry paths: model abstains; verifying a directory that is itself IGNOREd or hidden is outside the by-construction oracle (library-only use, DESIGN F13).",
+    technique="Lean 4 theorems over an executable tree-level model + source bridge + differential trees with by-construction oracle",
+    ref='§7 C01')
+CLAIMED['C07'] = dict(
+    text=("Lean theorem over the same tree-level model, for every tree, sub-path and handler policy: in keep-going mode the overall "
+          "result is failure iff some handler invocation returned failure, and the handler is invoked only for paths whose check "
+          "failed (C07_result_iff, by an invariant carried through the mutual recursion of the walk and the missing-directory pass); "
+          "cross-device and symlink-loop conditions are raised whatever the handler returns (C07_structural_still_raised, "
+          "C07_error_propagates). 'Exactly once, for every offending path, after the whole tree was scanned' is decided by the "
+          "correspondence: set and multiplicity of reported paths vs by-construction expectations and vs the model, 0-6 simultaneous "
+          "discrepancies, three policies, CLI --keep-going."),
+    note=TB + "The model walks the whole tree by construction (no short-circuit); that the code does is tied by Bridge.Tree (verify_aggregate) and the differential runs.",
+    technique="Lean 4 invariant proof through the recursive walk + source bridge + differential keep-going runs",
+    ref='§7 C07')
+
 PENDING = ['C01', 'C02', 'C03', 'C04', 'C05', 'C06', 'C07', 'C08', 'C10', 'C11', 'C12', 'C13', 'C14', 'C15', 'C16',
            'C17', 'C18', 'C19', 'C20']
 
